@@ -77,7 +77,7 @@ theorem localName_sh (F : Frame inpS inpW δ) {r : Range} {h : Nat} {n : LocalNa
 theorem scanEmitHint_sim (F : Frame inpS inpW δ) (hops : OpsSim env.ops inpS inpW δ K) {ab' : Ab}
     {cs cw : Common} {ss sw : ScanRegs} {xs xw : Ctx κ} (tsS : Nat) (ie : Bool)
     (hc : CRel δ 0 cs cw) (h1 : 1 ≤ cs.nextPos) (hs : ScanRel δ ab' cs.nextPos ss sw)
-    (htns : sw.tagNameStart = ss.tagNameStart + δ)
+    (htns : sw.tagNameStart = ss.tagNameStart + δ) (htsn : ss.tagStart = none)
     (hq1 : ss.chSeqStart = none) (hq2 : sw.chSeqStart = none)
     (hsim : xw.sim = xs.sim) (hpc : xs.prevConsumed = xw.prevConsumed + δ) (hK : K 0 xs.sink xw.sink) :
     ActSim δ K ab' true (scanEmitHint env inpS cs ss xs tsS ie) (scanEmitHint env inpW cw sw xw (tsS + δ) ie) := by
@@ -116,7 +116,7 @@ theorem scanEmitHint_sim (F : Frame inpS inpW δ) (hops : OpsSim env.ops inpS in
       rw [hnp']
       exact ⟨rfl, hs, hq1, hq2⟩
     | .ok .lex =>
-      refine Or.inr ⟨⟨rfl, ?_⟩, (fun hh => by rcases hh with hh | hh <;> cases hh), fun _ _ _ => ⟨ab', ⟨hc', ?_, hsim, hpc⟩, hK'⟩⟩
+      refine Or.inr ⟨⟨rfl, ?_⟩, (fun hh => by rcases hh with hh | hh <;> cases hh), fun _ _ _ => ⟨ab', ⟨hc', ?_, hsim, hpc⟩, hK', htsn⟩⟩
       · refine ⟨hc'.cdataAllowed, hc'.lastTextType, hc'.lastStartTagNameHash, rfl, ?_⟩
         simp only [mkBookmark, scanTakeFeedbackDirective, hs.pend]
       · dsimp only
@@ -164,21 +164,21 @@ theorem scanFinishTagName_sim (F : Frame inpS inpW δ) (hops : OpsSim env.ops in
       | switchTextType t =>
         simp only [scanApplyFeedback]
         exact scanEmitHint_sim (ab' := ab') (xs := { xs with sim := sim' }) (xw := { xw with sim := sim' }) F hops ts
-          ss.isInEndTag h.c (by omega) (hs' (fun _ => some t)) htns h.seqS h.seqW hx h.pc h.k
+          ss.isInEndTag h.c (by omega) (hs' (fun _ => some t)) htns rfl h.seqS h.seqW hx h.pc h.k
       | setAllowCdata b =>
         simp only [scanApplyFeedback]
         exact scanEmitHint_sim (ab' := ab') (xs := { xs with sim := sim' }) (xw := { xw with sim := sim' }) F hops ts
           ss.isInEndTag (cs := { cs with cdataAllowed := b }) (cw := { cw with cdataAllowed := b })
-          { h.c with cdataAllowed := rfl } (by show 1 ≤ cs.nextPos; omega) (hs' id) htns h.seqS h.seqW hx h.pc h.k
+          { h.c with cdataAllowed := rfl } (by show 1 ≤ cs.nextPos; omega) (hs' id) htns rfl h.seqS h.seqW hx h.pc h.k
       | requestLexeme k =>
         simp only [scanApplyFeedback]
-        refine Or.inr ⟨⟨rfl, ?_⟩, (fun hh => by rcases hh with hh | hh <;> cases hh), fun _ _ _ => ⟨ab', ⟨h.c, ?_, hx, h.pc⟩, h.k⟩⟩
+        refine Or.inr ⟨⟨rfl, ?_⟩, (fun hh => by rcases hh with hh | hh <;> cases hh), fun _ _ _ => ⟨ab', ⟨h.c, ?_, hx, h.pc⟩, h.k, rfl⟩⟩
         · exact ⟨h.c.cdataAllowed, h.c.lastTextType, h.c.lastStartTagNameHash, rfl, rfl⟩
         · exact ⟨rfl, hs' id, h.seqS, h.seqW⟩
       | none =>
         simp only [scanApplyFeedback]
         exact scanEmitHint_sim (ab' := ab') (xs := { xs with sim := sim' }) (xw := { xw with sim := sim' }) F hops ts
-          ss.isInEndTag h.c (by omega) (hs' id) htns h.seqS h.seqW hx h.pc h.k
+          ss.isInEndTag h.c (by omega) (hs' id) htns rfl h.seqS h.seqW hx h.pc h.k
 
 /-- **All tag scanner actions.** -/
 theorem scanAct_sim (F : Frame inpS inpW δ) (hops : OpsSim env.ops inpS inpW δ K) (a : ActName)
